@@ -111,6 +111,7 @@ pub fn prevote_scenario(sim: &mut Sim, steps: usize) {
                     sim.nodes[i].driver = None;
                     sim.nodes[i].async_pending.clear();
                     sim.nodes[i].to_apply.clear();
+                    sim.lose_unsynced(i);
                     let id = sim.nodes[i].id;
                     sim.note(|| format!("{} crash", id));
                     sim.pt.crash(id);
@@ -302,6 +303,8 @@ pub fn fair_suffix(sim: &mut Sim) {
     let mut bound = 260;
     let mut v = view(sim);
     let mut r = 0;
+    let mut last_lead: Option<(usize, u64)> = None;
+    let mut stable_since = 0;
     while r < bound && !(v.converged && !inject) && !sim.halted {
         fair_round(sim);
         v = view(sim);
@@ -309,7 +312,13 @@ pub fn fair_suffix(sim: &mut Sim) {
         if inject && r > 30 {
             break;
         }
-        if r == bound && bound == 260 && v.leaders.is_empty() {
+        let cur = v.leaders.first().and_then(|l| role(sim, *l).map(|x| (*l, x.1)));
+        if cur != last_lead {
+            last_lead = cur;
+            stable_since = r;
+        }
+        if r == bound && bound == 260 && (v.leaders.is_empty() || r - stable_since < 80) {
+            // still electing (or elected a moment ago): randomized timeouts, keep going
             bound = 2500;
         }
     }
